@@ -89,3 +89,33 @@ var famFolds = &family{
 		}
 	},
 }
+
+// (f) constant subexpressions whose folding does not terminate: the optimizer evaluates them at Generate
+// time. Recursion on the value stack is stopped by the stack guard (an error); recursion through a
+// closure handed to a list method runs on fresh stacks (finding F04c).
+var runawayInputs = []string{
+	"(f->f(f))(f->f(f))",
+	"func f(x) f(x+1); f(1)",
+	"func f(x) [x].map(e->f(e+1)); f(1)",
+	"let w=f->f(f); w(w)",
+	"func f(x) if x>0 then f(x+1) else 0; [f(1)]",
+	"let w=f->[f].map(g->g(g))[0]; w(w)",
+	"func f(x) [x].map(e->f(e+1)).sum(); f(1)",
+	"let w=f->[f].accept(g->g(g)).size(); w(w)",
+}
+
+var famRunaway = &family{
+	name: "f-runaway-constant-recursion",
+	size: func(q bool) int64 { return int64(len(runawayInputs)) },
+	bound: func(q bool) string {
+		return fmt.Sprintf("%d programs whose constant subexpression recurses without end (self application, recursive func on constant arguments; on the value stack and through closures handed to list methods) x value.New().Generate with comments+comfort off and on", len(runawayInputs))
+	},
+	eval: func(r *runner, i int64) {
+		for _, in := range r.full {
+			if in.spec.kind != "value" || in.spec.comments != in.spec.comfort {
+				continue
+			}
+			r.exec("f-runaway-constant-recursion", i, 0, in, runawayInputs[i], "")
+		}
+	},
+}
